@@ -1,0 +1,439 @@
+// +build verif
+
+package rockredis
+
+import (
+	"encoding/binary"
+	"errors"
+	"sync/atomic"
+
+	"github.com/youzan/ZanRedisDB/common"
+	"github.com/youzan/ZanRedisDB/engine"
+)
+
+// Verification hooks (compiled only with -tags verif): exported aliases of
+// the unexported key / value codecs and range helpers, plus a few accessors.
+// Add-only; nothing in here is referenced by production code.
+//
+// Naming: Verif<OriginalName>. "key" arguments named rk are redis keys without
+// table ("realkey"), arguments named tk are "table:realkey". In the wait-compact
+// policy the <key> part of hash/set/zset/list/bitmap ELEMENT keys is the
+// versioned key VerifEncodeVerKey(realkey, valueVersion), see VerifDecodeVerKey.
+
+// separators and prefixes
+var VerifMetaPrefix = append([]byte{}, metaPrefix...)
+
+const (
+	VerifTableStartSep = tableStartSep
+	VerifCollStartSep  = collStartSep
+	VerifDefaultSep    = defaultSep
+	VerifHeaderV1Len   = headerV1Len
+)
+
+// ---- table ----
+
+func VerifExtractTableFromRedisKey(tk []byte) (table []byte, rk []byte, err error) {
+	return extractTableFromRedisKey(tk)
+}
+func VerifPackRedisKey(table, rk []byte) []byte          { return packRedisKey(table, rk) }
+func VerifEncodeTableMetaKey(table []byte) []byte        { return encodeTableMetaKey(table) }
+func VerifDecodeTableMetaKey(k []byte) ([]byte, error)   { return decodeTableMetaKey(k) }
+func VerifEncodeTableMetaStartKey() []byte               { return encodeTableMetaStartKey() }
+func VerifEncodeTableMetaStopKey() []byte                { return encodeTableMetaStopKey() }
+func VerifEncodeDataTableStart(dt byte, t []byte) []byte { return encodeDataTableStart(dt, t) }
+func VerifEncodeDataTableEnd(dt byte, t []byte) []byte   { return encodeDataTableEnd(dt, t) }
+
+// VerifDecodeDataTablePrefix decodes <dt><len16><table>':' of a non-KV data
+// key and returns the table and the offset of the rest.
+func VerifDecodeDataTablePrefix(k []byte, dt byte) (table []byte, pos int, err error) {
+	defer func() {
+		if e := recover(); e != nil {
+			err = errTableDataKeyPrefix
+		}
+	}()
+	return decodeDataTablePrefixFromBuf(k, dt)
+}
+func VerifEncodeTableIndexMetaKey(table []byte, itype byte) []byte {
+	return encodeTableIndexMetaKey(table, itype)
+}
+func VerifDecodeTableIndexMetaKey(k []byte) (byte, []byte, error) { return decodeTableIndexMetaKey(k) }
+
+// table data / meta ranges used by DeleteTableRange, CompactTableRange, size estimation
+func VerifGetTableDataRange(dt byte, table []byte, start, end []byte) ([]engine.CRange, error) {
+	return getTableDataRange(dt, table, start, end)
+}
+func VerifGetTableMetaRange(dt byte, table []byte, start, end []byte) ([]byte, []byte, error) {
+	return getTableMetaRange(dt, table, start, end)
+}
+
+// ---- kv ----
+
+func VerifEncodeKVKey(tk []byte) []byte         { return encodeKVKey(tk) }
+func VerifDecodeKVKey(k []byte) ([]byte, error) { return decodeKVKey(k) }
+func VerifConvertRedisKeyToDBKVKey(tk []byte) (table []byte, dbKey []byte, err error) {
+	return convertRedisKeyToDBKVKey(tk)
+}
+
+// ---- meta (size) keys of collections; argument/return is "table:realkey" ----
+
+func VerifEncodeMetaKey(dt byte, tk []byte) ([]byte, error) { return encodeMetaKey(dt, tk) }
+func VerifHEncodeSizeKey(tk []byte) []byte                  { return hEncodeSizeKey(tk) }
+func VerifHDecodeSizeKey(k []byte) ([]byte, error)          { return hDecodeSizeKey(k) }
+func VerifSEncodeSizeKey(tk []byte) []byte                  { return sEncodeSizeKey(tk) }
+func VerifSDecodeSizeKey(k []byte) ([]byte, error)          { return sDecodeSizeKey(k) }
+func VerifZEncodeSizeKey(tk []byte) []byte                  { return zEncodeSizeKey(tk) }
+func VerifZDecodeSizeKey(k []byte) ([]byte, error)          { return zDecodeSizeKey(k) }
+func VerifLEncodeMetaKey(tk []byte) []byte                  { return lEncodeMetaKey(tk) }
+func VerifLDecodeMetaKey(k []byte) ([]byte, error)          { return lDecodeMetaKey(k) }
+func VerifBitEncodeMetaKey(tk []byte) []byte                { return bitEncodeMetaKey(tk) }
+func VerifBitDecodeMetaKey(k []byte) ([]byte, error)        { return bitDecodeMetaKey(k) }
+
+// VerifDecodeAnyMetaKey decodes a KV key or any collection meta key (first
+// byte KVType, HSizeType, LMetaType, SSizeType, ZSizeType, BitmapMetaType) to
+// its data type byte and "table:realkey".
+func VerifDecodeAnyMetaKey(k []byte) (dt byte, tk []byte, err error) {
+	if len(k) == 0 {
+		return 0, nil, errDataType
+	}
+	dt = k[0]
+	switch dt {
+	case KVType:
+		tk, err = decodeKVKey(k)
+	case HSizeType:
+		tk, err = hDecodeSizeKey(k)
+	case LMetaType:
+		tk, err = lDecodeMetaKey(k)
+	case SSizeType:
+		tk, err = sDecodeSizeKey(k)
+	case ZSizeType:
+		tk, err = zDecodeSizeKey(k)
+	case BitmapMetaType:
+		tk, err = bitDecodeMetaKey(k)
+	default:
+		err = errDataType
+	}
+	return dt, tk, err
+}
+
+// ---- element keys ----
+
+// hash/set/zset member keys: <dt><len16 table>':'<len16 key><key>':'<subkey>
+func VerifEncodeCollSubKey(dt byte, table, key, subkey []byte) []byte {
+	return encodeCollSubKey(dt, table, key, subkey)
+}
+func VerifDecodeCollSubKey(k []byte) (dt byte, table, key, subkey []byte, err error) {
+	defer func() {
+		if e := recover(); e != nil {
+			err = errCollKey
+		}
+	}()
+	return decodeCollSubKey(k)
+}
+func VerifHEncodeHashKey(table, key, field []byte) []byte { return hEncodeHashKey(table, key, field) }
+func VerifHDecodeHashKey(k []byte) (table, key, field []byte, err error) {
+	defer func() {
+		if e := recover(); e != nil {
+			err = errHashKey
+		}
+	}()
+	return hDecodeHashKey(k)
+}
+func VerifHEncodeStartKey(table, key []byte) []byte { return hEncodeStartKey(table, key) }
+func VerifHEncodeStopKey(table, key []byte) []byte  { return hEncodeStopKey(table, key) }
+
+func VerifSEncodeSetKey(table, key, member []byte) []byte { return sEncodeSetKey(table, key, member) }
+func VerifSDecodeSetKey(k []byte) (table, key, member []byte, err error) {
+	defer func() {
+		if e := recover(); e != nil {
+			err = errCollKey
+		}
+	}()
+	return sDecodeSetKey(k)
+}
+func VerifSEncodeStartKey(table, key []byte) []byte { return sEncodeStartKey(table, key) }
+func VerifSEncodeStopKey(table, key []byte) []byte  { return sEncodeStopKey(table, key) }
+
+func VerifZEncodeSetKey(table, key, member []byte) []byte { return zEncodeSetKey(table, key, member) }
+func VerifZDecodeSetKey(k []byte) (table, key, member []byte, err error) {
+	defer func() {
+		if e := recover(); e != nil {
+			err = errCollKey
+		}
+	}()
+	return zDecodeSetKey(k)
+}
+func VerifZEncodeStartSetKey(table, key []byte) []byte { return zEncodeStartSetKey(table, key) }
+func VerifZEncodeStopSetKey(table, key []byte) []byte  { return zEncodeStopSetKey(table, key) }
+
+// zset score index keys: <ZScoreType><len16 table>':' memcmp(key, sep, score, sep, member)
+func VerifZEncodeScoreKey(table, key, member []byte, score float64) []byte {
+	return zEncodeScoreKey(false, false, table, key, member, score)
+}
+func VerifZDecodeScoreKey(k []byte) (table, key, member []byte, score float64, err error) {
+	defer func() {
+		if e := recover(); e != nil {
+			err = errZSetInvalidEncode
+		}
+	}()
+	return zDecodeScoreKey(k)
+}
+func VerifZEncodeStartKey(table, key []byte) []byte { return zEncodeStartKey(table, key) }
+func VerifZEncodeStopKey(table, key []byte) []byte  { return zEncodeStopKey(table, key) }
+func VerifZEncodeStartScoreKey(table, key []byte, score float64) []byte {
+	return zEncodeStartScoreKey(table, key, score)
+}
+func VerifZEncodeStopScoreKey(table, key []byte, score float64) []byte {
+	return zEncodeStopScoreKey(table, key, score)
+}
+
+// list element keys: <ListType><len16 table>':'<len16 key><key><seq64>
+func VerifLEncodeListKey(table, key []byte, seq int64) []byte { return lEncodeListKey(table, key, seq) }
+func VerifLDecodeListKey(k []byte) (table, key []byte, seq int64, err error) {
+	defer func() {
+		if e := recover(); e != nil {
+			err = errListKey
+		}
+	}()
+	return lDecodeListKey(k)
+}
+
+// bitmap (v2) element keys: <BitmapType><len16 table>':' memcmp(key, sep, index)
+func VerifEncodeBitmapKey(table, key []byte, index int64) ([]byte, error) {
+	return encodeBitmapKey(table, key, index)
+}
+func VerifDecodeBitmapKey(k []byte) (table, key []byte, index int64, err error) {
+	defer func() {
+		if e := recover(); e != nil {
+			err = errBitmapKey
+		}
+	}()
+	return decodeBitmapKey(k)
+}
+func VerifEncodeBitmapStartKey(table, key []byte, index int64) ([]byte, error) {
+	return encodeBitmapStartKey(table, key, index)
+}
+func VerifEncodeBitmapStopKey(table, key []byte) ([]byte, error) {
+	return encodeBitmapStopKey(table, key)
+}
+
+// json keys: <JSONType><len16 table>':' memcmp(sep, key)
+func VerifEncodeJSONKey(table, rk []byte) ([]byte, error) { return encodeJSONKey(table, rk) }
+func VerifDecodeJSONKey(k []byte) (table, rk []byte, err error) {
+	defer func() {
+		if e := recover(); e != nil {
+			err = errors.New("invalid json key")
+		}
+	}()
+	return decodeJSONKey(k)
+}
+
+// ---- expire index keys (local deletion policy) ----
+
+func VerifExpEncodeTimeKey(dt byte, tk []byte, when int64) []byte {
+	return expEncodeTimeKey(dt, tk, when)
+}
+func VerifExpDecodeTimeKey(k []byte) (dt byte, tk []byte, when int64, err error) {
+	return expDecodeTimeKey(k)
+}
+func VerifExpEncodeMetaKey(dt byte, tk []byte) []byte { return expEncodeMetaKey(dt, tk) }
+func VerifExpDecodeMetaKey(k []byte) (dt byte, tk []byte, err error) {
+	return expDecodeMetaKey(k)
+}
+
+// ---- versioned collection keys and value headers (wait-compact policy) ----
+
+func VerifEncodeVerKey(rk []byte, valueVersion int64) []byte {
+	return encodeVerKey(&headerMetaValue{ValueVersion: valueVersion}, rk)
+}
+func VerifDecodeVerKey(vk []byte) (rk []byte, valueVersion int64, err error) {
+	defer func() {
+		if e := recover(); e != nil {
+			err = errInvalidVerKey
+		}
+	}()
+	return decodeVerKey(vk)
+}
+
+// VerifConvertCollDBKeyToRawKey decodes a versioned element key of
+// hash/set/zset/zscore/list/bitmap to (dt, "table:realkey", version).
+func VerifConvertCollDBKeyToRawKey(k []byte) (dt byte, tk []byte, ver int64, err error) {
+	defer func() {
+		if e := recover(); e != nil {
+			err = errCollKey
+		}
+	}()
+	return convertCollDBKeyToRawKey(k)
+}
+
+// VerifHeader is the decoded value header (headerMetaValue) that the
+// wait-compact policy puts in front of KV values and collection meta values.
+type VerifHeader struct {
+	Ver          byte
+	ExpireAt     uint32
+	ValueVersion int64
+	UserData     []byte
+}
+
+func VerifDecodeHeader(v []byte) (VerifHeader, error) {
+	var h headerMetaValue
+	_, err := h.decode(v)
+	return VerifHeader{Ver: h.Ver, ExpireAt: h.ExpireAt, ValueVersion: h.ValueVersion, UserData: h.UserData}, err
+}
+func VerifEncodeHeader(h VerifHeader) []byte {
+	hh := headerMetaValue{Ver: h.Ver, ExpireAt: h.ExpireAt, ValueVersion: h.ValueVersion, UserData: h.UserData}
+	return hh.encodeWithData()
+}
+
+// meta payloads (UserData of the header in wait-compact, whole value in local deletion)
+func VerifParseListMeta(v []byte) (headSeq, tailSeq, size, ts int64, err error) {
+	return parseListMeta(v)
+}
+func VerifParseZMeta(v []byte) (size int64, ts int64, err error) { return parseZMeta(v) }
+
+// VerifParseSizeMeta parses the hash/set size meta payload: size(8) [ts(8)].
+func VerifParseSizeMeta(v []byte) (size int64, ts int64, err error) {
+	if len(v) == 0 {
+		return 0, 0, nil
+	}
+	if len(v) < 8 {
+		return 0, 0, errIntNumber
+	}
+	size = int64(binary.BigEndian.Uint64(v[:8]))
+	if len(v) >= 16 {
+		ts = int64(binary.BigEndian.Uint64(v[8:16]))
+	}
+	return size, ts, nil
+}
+
+// VerifTsLen is the length of the modification timestamp appended to KV values.
+const VerifTsLen = tsLen
+
+// ---- accessors on an open store ----
+
+// VerifEngine returns the storage engine below the RockDB.
+func (r *RockDB) VerifEngine() engine.KVEngine { return r.rockEng }
+
+// VerifConfig returns the configuration the store was opened with.
+func (r *RockDB) VerifConfig() *RockRedisDBConfig { return r.cfg }
+
+// VerifFlushHLL writes the dirty HyperLogLog cache entries to the engine (what
+// Backup and closeEng do). Must not run concurrently with applying writes.
+func (r *RockDB) VerifFlushHLL() {
+	if r.hllCache != nil {
+		r.hllCache.Flush()
+	}
+}
+
+// VerifLatestSnapIndex returns the value set by SetLatestSnapIndex.
+func (r *RockDB) VerifLatestSnapIndex() uint64 { return atomic.LoadUint64(&r.latestSnapIndex) }
+
+// VerifIsBatching tells whether BeginBatchWrite is in effect.
+func (r *RockDB) VerifIsBatching() bool { return atomic.LoadInt32(&r.isBatching) == 1 }
+
+// VerifExpirationPolicy returns the configured expiration policy.
+func (r *RockDB) VerifExpirationPolicy() common.ExpirationPolicy { return r.cfg.ExpirationPolicy }
+
+// VerifExpireAt returns the absolute expire time (unix seconds, 0 = none) that
+// is stored for the key of the given data type (KVType, HashType, ListType,
+// SetType, ZSetType, BitmapType) independent of the wall clock: from the value
+// header in the wait-compact policy, from the expire meta key in the
+// local-deletion policy. found is false if the key (or its ttl record) is absent.
+func (r *RockDB) VerifExpireAt(dt byte, tk []byte) (expireAt int64, found bool, err error) {
+	if r.cfg.ExpirationPolicy == common.WaitCompact {
+		mk, err := encodeMetaKey(dt, tk)
+		if err != nil {
+			return 0, false, err
+		}
+		v, err := r.GetBytes(mk)
+		if err != nil || v == nil {
+			return 0, false, err
+		}
+		var h headerMetaValue
+		if _, err := h.decode(v); err != nil {
+			return 0, true, err
+		}
+		return int64(h.ExpireAt), true, nil
+	}
+	// local deletion keeps only time keys (value = expire meta key name); a
+	// key may have several (every EXPIRE/SETEX adds one): report the earliest.
+	idx, err := r.VerifLocalExpireIndex()
+	if err != nil {
+		return 0, false, err
+	}
+	whens := idx[string([]byte{dt})+string(tk)]
+	if len(whens) == 0 {
+		return 0, false, nil
+	}
+	return whens[0], true, nil
+}
+
+// VerifLocalExpireIndex scans the expire time index (ExpTimeType keys, used by
+// the local-deletion policy) and returns, per string(dataType byte)+"table:realkey",
+// the recorded expire times in ascending order.
+func (r *RockDB) VerifLocalExpireIndex() (map[string][]int64, error) {
+	minKey := expEncodeTimeKey(NoneType, nil, 0)
+	maxKey := []byte{ExpTimeType + 1}
+	it, err := r.NewDBRangeIterator(minKey, maxKey, common.RangeROpen, false)
+	if err != nil {
+		return nil, err
+	}
+	defer it.Close()
+	res := make(map[string][]int64)
+	for ; it.Valid(); it.Next() {
+		dt, tk, when, derr := expDecodeTimeKey(it.RefKey())
+		if derr != nil {
+			continue
+		}
+		k := string([]byte{dt}) + string(tk)
+		res[k] = append(res[k], when)
+	}
+	return res, nil
+}
+
+// VerifPurgeOldCheckpoint runs the checkpoint purge exactly as backupLoop /
+// restoreFromPath do.
+func VerifPurgeOldCheckpoint(keepNum int, checkpointDir string, latestSnapIndex uint64) {
+	purgeOldCheckpoint(keepNum, checkpointDir, latestSnapIndex)
+}
+
+// VerifIsSameSSTFile exposes the same-file test used by restore.
+func VerifIsSameSSTFile(f1, f2 string) error { return isSameSSTFile(f1, f2) }
+
+// ---- local-deletion expiry checker ----
+
+// VerifSetLocalExpCheckInterval sets the period (seconds) of the background
+// checker of the local-deletion policy for stores opened afterwards and
+// returns the previous value (default 300).
+func VerifSetLocalExpCheckInterval(sec int) int {
+	old := localExpCheckInterval
+	localExpCheckInterval = sec
+	return old
+}
+
+// VerifTTLCheckOnce runs one pass of the local-deletion checker synchronously
+// on the calling goroutine (scan of the expire index up to the node's wall
+// clock, then deletion of what it found) and returns the number of expired
+// records it collected. It returns an error if the store does not use the
+// local-deletion policy. The caller must make sure no write is applied
+// concurrently and that the background checker is parked (large interval).
+func (r *RockDB) VerifTTLCheckOnce() (int, error) {
+	exp, ok := r.expiration.(*localExpiration)
+	if !ok || exp == nil {
+		return 0, errors.New("not the local deletion policy")
+	}
+	buf := newLocalBatchedBuffer(r, localBatchedBufSize)
+	defer buf.Destroy()
+	stop := make(chan struct{})
+	total := 0
+	for i := 0; i < 1000; i++ {
+		exp.TTLChecker.setNextCheckTime(0, true)
+		err := exp.TTLChecker.check(buf, stop)
+		total += len(buf.buff)
+		buf.commit()
+		if err == ErrLocalBatchedBuffFull {
+			continue
+		}
+		return total, err
+	}
+	return total, nil
+}
